@@ -166,6 +166,11 @@ Judge(e) ==
   \* and a sync handled by the main loop between the two makes the second request fail; the round callback is then made, rightly, with
   \* the (h, 0) context it holds - already cancelled.  Thorough tier, seed 1, run 324: false alarm.)
   /\ Chk(e.ev = "spi.enter" => \E p \in c.oks : Matches(p, SpiPos(e)), "c15_conf_consumer_call_without_its_context")
+  \* a proposal is requested with the context of the view the node is in (requested immediately before the call; the driver reads
+  \* the node's view on the worker goroutine, its only writer): with the context of the view it has just left, a late election
+  \* trigger of that view would cancel the proposal of the current one
+  /\ Chk((e.ev = "spi.enter" /\ e.kind = "propose") => (c.lastFor.res = "ok" /\ c.lastFor.p = <<e.h, e.v>>),
+         "c15_conf_proposal_requested_with_the_context_of_another_view")
   \* a context the specification holds live has not been cancelled (cancellations are logged before they are performed)
   /\ Chk((e.ev \in {"spi.enter", "spi.leave"} /\ e.dead) => \E p \in c.oks : Matches(p, SpiPos(e)) /\ ~LiveInSpec(p), "c15_conf_live_context_observed_cancelled")
 
